@@ -285,3 +285,75 @@ func (g *Gen) sortObligations(id string) {
 	}
 	add("treeSort/comparator", ifs(cmpOK, "true", "false"), "less(a, b) is prio(a) > prio(b): a strict weak order, higher priority first")
 }
+
+// ---------------------------------------------------------------------------------------------
+// C04: typed declarations with an initialiser (`var x T = e`, compile case ":=" / "var") must
+// convert the initialiser to T for every numeric T. The compiler does this with a CAST guarded by
+// a literal list of types; the obligations say that the list contains every fixed-width numeric
+// type (extracted from the AST: every `slices.Contains([]Type{...}, typ)` guard whose block emits
+// codeCast).
+// ---------------------------------------------------------------------------------------------
+func (g *Gen) castObligations(id string) {
+	if id != "C04" {
+		return
+	}
+	fd := g.P.Funcs["(*compiler).compile"]
+	if fd == nil {
+		g.errorf("cast-list: (*compiler).compile not found")
+		return
+	}
+	numeric := []string{"TypeInt8", "TypeUint8", "TypeInt32", "TypeUint32", "TypeFloat64"}
+	found := 0
+	ast.Inspect(fd.Body, func(n ast.Node) bool {
+		ifs, ok := n.(*ast.IfStmt)
+		if !ok {
+			return true
+		}
+		call, ok := ifs.Cond.(*ast.CallExpr)
+		if !ok || len(call.Args) != 2 {
+			return true
+		}
+		sel, ok := call.Fun.(*ast.SelectorExpr)
+		if !ok || sel.Sel.Name != "Contains" {
+			return true
+		}
+		lit, ok := call.Args[0].(*ast.CompositeLit)
+		if !ok {
+			return true
+		}
+		emitsCast := false
+		ast.Inspect(ifs.Body, func(m ast.Node) bool {
+			if id, ok := m.(*ast.Ident); ok && id.Name == "codeCast" {
+				emitsCast = true
+			}
+			return true
+		})
+		if !emitsCast {
+			return true
+		}
+		found++
+		have := map[string]bool{}
+		for _, el := range lit.Elts {
+			if id, ok := el.(*ast.Ident); ok {
+				have[id.Name] = true
+			}
+		}
+		for _, t := range numeric {
+			g.Obls = append(g.Obls, &Obligation{
+				Name: fmt.Sprintf("compile[\":=\"]/cast-list#%d[%s]", found, t), Props: []string{"C04"}, Unit: "(*compiler).compile",
+				Goal: ifs2(have[t]), Text: "a typed declaration of type " + t + " with an initialiser converts the initialiser (CAST guard list contains " + t + ")",
+			})
+		}
+		return true
+	})
+	if found == 0 {
+		g.errorf("cast-list: no CAST guard found in compile (the obligation cannot be stated)")
+	}
+}
+
+func ifs2(b bool) string {
+	if b {
+		return "true"
+	}
+	return "false"
+}
